@@ -169,7 +169,7 @@ func c08Bounded(eng *Engine, tier string, seed int64) *BoundedResult {
 	if tier == "thorough" {
 		maxLines, depth = 4, 4
 	}
-	out := runReplayTest(repoDir(), filepath.Join(repoDir(), "hostsfile"), fmt.Sprintf(c08TestSrc, maxLines, depth))
+	out := runHarness(repoDir(), filepath.Join(repoDir(), "hostsfile"), fmt.Sprintf(c08TestSrc, maxLines, depth))
 	res := &BoundedResult{
 		What:  "(a) Parse with a recording HandleSet gives the same sequence of Add / HandleInvalid calls whether the source is read whole or in chunks of 1, 2, 3 or 7 bytes, one outcome per line, rejected lines numbered from 1; (b) DefaultStorage after every sequence of records answers ByAddr / ByName like a reference model (first-seen order, no duplicates, case-insensitive names, both indexes from the same records)",
 		Bound: fmt.Sprintf("(a) every text of at most %d lines from 9 line forms, with LF, trailing LF and CRLF; (b) every sequence of at most %d records over 3 addresses (one zoned) and 5 name lists (case variants, empty)", maxLines, depth),
